@@ -45,6 +45,14 @@ def run(c):
         op, _ = orders(c, r)
         trace = c.scratch + "/buf.ndjson"
         c.run_driver(drv, ["-mode", "buf", "-orders", op, "-out", trace, "-n", 120 if c.thorough else 16])
+        # down to the kernel: production path without a test opener, real loopback sockets, read-back
+        st = c.scratch + "/sock.ndjson"
+        p = c.run_driver(drv, ["-mode", "sock", "-orders", op, "-out", st, "-n", 12 if c.thorough else 6], check=False)
+        if p.returncode == 0:
+            with open(trace, "a") as f:
+                f.write(open(st).read())
+        else:
+            c.notes.append("real-socket part skipped: " + p.stdout[-300:].replace("\n", " "))
     r = c.validate("RouterConfigTrace", "RouterConfigTrace.cfg", trace, timeout=900)
     lines = _crypto.judge_cases(c, r, trace, vlib, whole_trace=_reset_and_line)
     ntr = nev = 0
@@ -56,11 +64,17 @@ def run(c):
         if e["ev"] == "reset":
             ntr += 1
             cur = e
-        elif e["ev"] in ("open", "factory"):
+        elif e["ev"] in ("open", "factory", "sock"):
             nev += 1
-            kinds.add(e.get("kind", "factory"))
+            kinds.add(("sock-" if e["ev"] == "sock" else "") + e.get("kind", "factory"))
             if cur["rcv"] != cur["snd"]:
                 shapes.add((cur["how"], cur["order"], cur["rcv"], cur["snd"], cur["reuse"], cur["other"], e["ev"], e.get("kind")))
+    socks = {k for k in kinds if k.startswith("sock-")}
+    kinds -= socks
+    if not c.replay and socks and socks != {"sock-internal", "sock-external", "sock-sibling"}:
+        raise vlib.Infra("vacuity guard: real sockets observed: %s" % sorted(socks))
+    if not socks and not c.replay:
+        c.notes.append("no real sockets were observed (loopback UDP not available?)")
     if not c.replay and kinds != {"internal", "external", "sibling", "factory"}:
         raise vlib.Infra("vacuity guard: link kinds observed: %s" % sorted(kinds))
     c.cov["traces_validated_against_impl"] += ntr
@@ -70,8 +84,10 @@ def run(c):
                      "non-trivial = configurations with receive != send (a swap is visible); distinct = distinct "
                      "(path, order, sizes, socket-reuse mode, second provider, event kind)")
     c.sample_trace(trace, nevents=6)
-    c.assumptions += ["sockets are not opened: the recording ConnOpener stands for conn.New, which hands "
-                      "conn.Config to setsockopt (private/underlay/conn is not exercised)",
+    c.assumptions += ["in the recorded-opener traces the ConnOpener stands for conn.New; the real-socket traces go "
+                      "through conn.New and read SO_RCVBUF/SO_SNDBUF back (Linux: between the requested value and "
+                      "twice that value, clamped to rmem_max/wmem_max); sizes are chosen so that these intervals "
+                      "are disjoint",
                       "the second provider ('verifrec') is a stub registered through router.AddUnderlay; it "
                       "observes the arguments of the lazily called provider factory"]
 
